@@ -259,6 +259,49 @@ def d2(cx: Cx, ob: Ob) -> None:
             ob.violate(lt.qualname, lt.where, f"__lt__ compares `{show(t[2])[:40]}` < `{show(t[3])[:40]}`; it must be the lexicographic order on (prefix, identifier) of self vs other", detail="pair")
 
 
+def _memo_return(cx: Cx, ob: Ob, ci, m, s, t, ctx) -> bool:
+    """``return CACHE.get(key)`` / ``CACHE[key]`` where the same function stores ``CACHE[key] = <what it returns
+    after parsing>``: the answer of an earlier, identical call.  Identical only if the key names every parameter
+    the stored value depends on (those not pinned by the guards of the store)."""
+    from ..rules import guard_atoms
+
+    tab, key = None, None
+    if op(t) == "call" and op(t[1]) == "attr" and t[1][2] == "get" and op(t[1][1]) == "gconst" and t[2]:
+        tab, key = t[1][1], t[2][0]
+    elif op(t) == "item" and op(t[1]) == "gconst":
+        tab, key = t[1], t[2]
+    if tab is None:
+        return False
+    stores = [(ev, c2) for ev, c2 in s.walk() if ev.kind == "store" and op(ev.a) == "item" and ev.a[1] == tab]
+    if not stores:
+        return False
+    handled = False
+    for ev, c2 in stores:
+        val = ev.b
+        # the stored value is what this path returns
+        if not (c2.path.out is not None and c2.path.out[0] == "return" and c2.path.out[1] == val):
+            continue
+        handled = True
+        if ev.a[2] != key:
+            ob.violate(m.qualname, where(m, ev.line), f"{ci.name}.from_curie stores its result under `{show(ev.a[2])[:40]}` but looks it up under `{show(key)[:40]}`", detail="memo-key")
+            continue
+        pinned = {a[2][1] for a, pol in guard_atoms(c2.guards) if op(a) == "cmp" and a[1] == "is" and op(a[2]) == "param" and is_const(a[3], None) and pol is True}
+        needs = {x[1] for x in subterms(val) if op(x) == "param"} - pinned
+        has = {x[1] for x in subterms(key) if op(x) == "param"}
+        missing = sorted(needs - has)
+        if missing:
+            ob.violate(
+                m.qualname,
+                where(m, ev.line),
+                f"{ci.name}.from_curie remembers its results under the key `{show(key)[:50]}`, which leaves out {missing}: a call that differs only in {missing[0]} gets the answer of the earlier call (a CURIE parsed with one separator is handed out for another)",
+                witness="Reference.from_curie('a/b:c', sep='/') then Reference.from_curie('a/b:c') returns ('a', 'b:c')",
+                detail="memo-key",
+            )
+        else:
+            ob.site(f"{m.where} {m.qualname}", f"memoised under {show(key)[:50]} (every parameter the result depends on)")
+    return handled
+
+
 @obligation("C15-D3", "print/parse inverse: both `curie` properties are prefix + ':' + identifier and ':' is _split's default separator; every from_curie and the string pre-validator go through _split and pass (prefix, identifier[, name]) on in order", floor=6)
 def d3(cx: Cx, ob: Ob) -> None:
     check_split(cx, ob)
@@ -288,6 +331,8 @@ def d3(cx: Cx, ob: Ob) -> None:
         for t, ctx in s.returns():
             ob.site(f"{m.where} {m.qualname}", show(t)[:80])
             sc = [x for x in subterms(t) if op(x) == "call" and x[1] == ("func", f"{API}._split")]
+            if not sc and _memo_return(cx, ob, ci, m, s, t, ctx):
+                continue
             if not sc:
                 sup = ("call", ("builtin", "super"), (), ())
                 if op(t) == "call" and t[1] == ("attr", sup, "from_curie"):
